@@ -247,7 +247,20 @@ def r2(run: Run, src, g):
 
 
 def r3(run: Run, src, g):
-    """the lexer cannot drop characters"""
+    """the lexer cannot drop characters: decided by evaluation of the lexer on probe formulas against the meaning of the lexer
+    loop over the terminals of the grammar model; the structural reading of RegexpBaseToken.get / Lexer.parse is the fallback"""
+    from . import lexer_eval
+    try:
+        lexer_eval.lexer_obligations(run, 'C05.R3', src, g)
+        run.extra['lexer_by_evaluation'] = True
+        lexer_eval.number_literal_obligations(run, 'C05.R3', src, g)
+        return
+    except AnalysisError as e:
+        run.note(f'C05.R3: the lexer by structure ({e.reason[:120]})')
+    _r3_structural(run, src, g)
+
+
+def _r3_structural(run: Run, src, g):
     rb = src.cls('RegexpBaseToken')
     fi = rb.methods.get('get')
     if fi is None:
@@ -597,6 +610,13 @@ def r10_formula_text_untouched(run: Run, src):
     """the characters the token classes see are the characters of the formula: between two tokens the lexer may strip blanks at
     the ends of the remaining text, nothing else -- a rewrite of the whole text (split/join, replace, re.sub, case change)
     also rewrites the inside of string literals"""
+    from . import lexer_eval
+    from ..grammar import get_grammar
+    try:
+        lexer_eval.lexer_obligations(run, 'C05.R10', src, get_grammar(src), probes=lexer_eval.TEXT_PROBES)
+        return
+    except AnalysisError as e:
+        run.note(f'C05.R10: the lexer by structure ({e.reason[:120]})')
     from .common import normalized_method
     fi, fn = normalized_method(src, 'Lexer', 'parse')
     ps = [p for p in fi.params if p not in ('cls', 'self')]
